@@ -28,10 +28,16 @@ type SyncCase struct {
 	Target uint64
 	Peers  []string // behaviour per peer identity: honest | behind | refuse | stall | close@j | badsig@j | skip@j | repeat@j | regress@j | foreignid | validgap | wrongchain | emptysig@j
 	Height uint64   // chain height the honest peers have
+	// FailWrite: the first database write of this round fails (0: none) — a cancelled context or an I/O error
+	FailWrite uint64
 }
 
 func (c SyncCase) String() string {
-	return fmt.Sprintf("h0=%d target=%d height=%d peers=[%s]", c.H0, c.Target, c.Height, strings.Join(c.Peers, " "))
+	f := ""
+	if c.FailWrite > 0 {
+		f = fmt.Sprintf(" first-write-of-round-%d-fails", c.FailWrite)
+	}
+	return fmt.Sprintf("h0=%d target=%d height=%d peers=[%s]%s", c.H0, c.Target, c.Height, strings.Join(c.Peers, " "), f)
 }
 
 func (c SyncCase) hasHonest() bool {
@@ -227,7 +233,7 @@ func (sm *SyncSim) Run(devs []vrt.Dev, labels bool) *SyncResult {
 	var cl *simClient
 	var mon *fix.Monitor
 	var cleanup func()
-	res.S = vrt.Run(vrt.Options{Devs: devs, MaxSteps: 500000, Labels: labels, FreePerm: true, Watchdog: 20 * time.Second,
+	res.S = vrt.Run(vrt.Options{Devs: devs, MaxSteps: 500000, Labels: labels, FreePerm: true, Watchdog: 60 * time.Second,
 		Start: time.Unix(common.TimeOfRound(k.Period, k.Genesis, maxH), 0),
 		Until: time.Unix(common.TimeOfRound(k.Period, k.Genesis, maxH), 0).Add(time.Duration(sm.Periods)*k.Period + time.Second)}, func() {
 		ctx, cancel := context.WithCancel(context.Background())
@@ -248,6 +254,17 @@ func (sm *SyncSim) Run(devs []vrt.Dev, labels bool) *SyncResult {
 			}
 		}
 		mon = fix.NewMonitor(base)
+		if c.FailWrite > 0 {
+			failed := false
+			mon.Fail = func(b *common.Beacon) error {
+				if b.Round == c.FailWrite && !failed {
+					failed = true
+					vrt.Logf("injected failure of the database write of round %d", b.Round)
+					return fmt.Errorf("injected: database write failed")
+				}
+				return nil
+			}
+		}
 		ss, err := beacon.NewSchemeStore(ctx, mon, k.Scheme)
 		if err != nil {
 			res.Err = err
@@ -352,7 +369,7 @@ func (sm *SyncSim) Judge(r *SyncResult, prefix string) *explore.Exec {
 	x.Outcome = fmt.Sprintf("case#%d head=%d reached=%v attempts=%d", r.Case, r.Head, reached, len(r.Attempts))
 	if c.hasHonest() {
 		x.Tags = append(x.Tags, fmt.Sprintf("case#%d:reached=%v", r.Case, reached))
-		if !c.hasStall() && r.HeadAfterFirst < goal {
+		if !c.hasStall() && c.FailWrite == 0 && r.HeadAfterFirst < goal {
 			add("not-converged-in-one-sync", "an honest peer ahead exists and every other peer fails fast, yet one period after the request the store is at %d (goal %d): the sync call did not move on to the honest peer with the right starting round", r.HeadAfterFirst, goal)
 		}
 		if !reached && !c.hasStall() {
